@@ -9,6 +9,9 @@ the ~60-300 KramersKronigResult of one automatic/exploratory run, the FitResult 
 KramersKronigResult built inside the Loewner method's "pseudo_chisqr" order search - not only the returned object.
 All calls use num_procs=1 (and set_default_num_procs(1)), so results are constructed in the observed process.
 
+Workload data.  vlib/c08_data.py (frozen copy of the C12 spec/family helper) draws the generating circuits; the spectrum
+is only *data* for C08 - no clause depends on how well an analysis reproduces it.
+
 Reference.  The harness keeps its own arrays (f descending, Z, mask set) and derives f_u = f[~mask], Z_u = Z[~mask]
 itself; DataSet getters are not part of the oracle.
 
@@ -57,7 +60,8 @@ import warnings
 
 import numpy as np
 
-from .. import fit_model, monitors
+from .. import c08_data as fit_model
+from .. import monitors
 
 ID = "C08"
 RULE = (
@@ -70,7 +74,9 @@ RULE = (
     "perform_exploratory_kramers_kronig_tests, perform_zhit (5 smoothings x 4 interpolations x windows/custom weights x Z/Y, "
     "one-dimensional 'auto'), calculate_drt tr-nnls (real/imaginary/complex x fixed/suggested/L-curve lambda), lm (automatic, "
     "explicit order, pseudo_chisqr order search), bht (seeded), mrq-fit (with and without a fit object), fit_circuit (single "
-    "method/weight, lists, auto).  Every result object constructed during a call is checked; each item is re-run with "
+    "method/weight, lists, auto).  Thorough tier: ~10x the cases, half of them with the wide parameter range (resistance "
+    "scale 1e-2..1e6 ohm), Z-HIT up to 60 points, plus the slow cells (Z-HIT with all three options 'auto', Loewner order search "
+    "with the default automatic Kramers-Kronig test inside, automatic num_RC with the cnls test).  Every result object constructed during a call is checked; each item is re-run with "
     "poisoned masked points and with the masked points removed.  A case is non-trivial when >= 1 result was checked; "
     "distinct = distinct (entry point + option cell, n, ascending?, mask set) keys."
 )
@@ -562,10 +568,10 @@ def _jz(Z):
     return [[float(z.real), float(z.imag)] for z in Z]
 
 
-def gen_spectrum(rng, n, family=None, ndr=False):
-    """(f descending, Z with noise, true spec, family)."""
+def gen_spectrum(rng, n, family=None, ndr=False, wide=False):
+    """(f descending, Z with noise, true spec, family).  wide: resistance scale 1e-2..1e6 ohm instead of 1..1e4, shifted windows."""
     family = family or str(rng.choice(fit_model.FAMILIES))
-    spec, f_lo, f_hi, _ppd = fit_model.gen_true(rng, family)
+    spec, f_lo, f_hi, _ppd = fit_model.gen_true(rng, family, wide=wide)
     lg = np.linspace(math.log10(f_hi), math.log10(f_lo), n)
     step = abs(lg[1] - lg[0])
     lg = lg + rng.uniform(-0.3, 0.3, size=n) * step
@@ -606,10 +612,10 @@ def gen_mask(rng, n, nmin):
     return [int(i) for i in np.nonzero(M)[0]], style
 
 
-def base_item(rng, op, opts_fn, n_lo, n_hi, nmin, family=None, ndr=False, nvar=None, want_circuit=None):
+def base_item(rng, op, opts_fn, n_lo, n_hi, nmin, family=None, ndr=False, nvar=None, wide=False):
     """Draw data + mask, then let opts_fn(rng, ctx) choose the options knowing the unmasked data."""
     n = int(rng.integers(max(n_lo, nmin), n_hi + 1))
-    f, Z, spec, family = gen_spectrum(rng, n, family=family, ndr=ndr)
+    f, Z, spec, family = gen_spectrum(rng, n, family=family, ndr=ndr, wide=wide)
     mask, mstyle = gen_mask(rng, n, nmin)
     M = np.zeros(n, dtype=bool)
     M[mask] = True
@@ -865,7 +871,8 @@ def gen_items(case):
     for _ in range(count):
         fam = str(rng.choice(family)) if isinstance(family, list) else family
         use_ndr = bool(rng.random() < 0.3) if ndr == "mix" else bool(ndr)
-        items.append(base_item(rng, op, opts_fn, n_lo, n_hi, nmin, family=fam, ndr=use_ndr, nvar=nvar))
+        wide = case["tier"] == "thorough" and bool(rng.random() < 0.5)
+        items.append(base_item(rng, op, opts_fn, n_lo, n_hi, nmin, family=fam, ndr=use_ndr, nvar=nvar, wide=wide))
     return items
 
 
